@@ -116,7 +116,8 @@ func (e *Encoder) Encode(v any) error {
 	if e.real != nil {
 		return e.real.Encode(v)
 	}
-	_, err := e.w.Write(record(v))
+	// like the real encoder: the value followed by a newline
+	_, err := e.w.Write(append(record(v), '\n'))
 	return err
 }
 
